@@ -4,6 +4,9 @@ Task "expr": generated expression trees over user-defined / dense / Hermitian / 
 expression on dense matrices (mv, mm, rmv, rmm, fullmatrix, .H, shapes).
 Task "dag": the same for expressions in which an operand OBJECT occurs more than once (sub-expressions re-used by reference).
 Task "reject": shape / Hermiticity / type violations must raise the documented error.
+Scalar factors (expr, dag): python ints and floats at full double precision -- small ints, dyadic floats, decimal fractions and random
+doubles that are not representable in single precision, large ints, and magnitudes from 1e-260 to 1e250 for float64/complex128
+operators (1e-15 .. 1e9 for float32); tolerances are relative to |f| * |matrix|, non-finite results fail.
 Task "classes": stateful histories of class definitions and first instantiations (fresh classes per example via type()):
 capability flags and routing must follow the methods the class's own MRO defines, whatever was instantiated before.
 """
@@ -18,16 +21,31 @@ from pbt.harness import Task, ok, violation, discard, xt_call
 
 PID = "C11"
 RULE = ("expr: expression trees of depth<=3 (thorough 4) over leaves {mv-only, mv+rmv, mv+mm, all products, dense-wrapped, "
-        "Hermitian-flagged, Jacobian operator} combined with .H, matmul, +, -, scalar*; operator batch shapes broadcastable by "
+        "Hermitian-flagged, Jacobian operator} combined with .H, matmul, +, -, scalar*; scalar factors are python ints / floats: ordinary ones "
+        "with |f| in [1/16,16] or 0 (small ints, dyadic floats, decimal fractions such as 0.1, -1/3, 1.7 and Hypothesis-drawn doubles with a full "
+        "mantissa, i.e. not representable in float32) and, in one tree out of four, ONE extreme factor (f64/c128: 1e-260..1e250 incl. 1e-60, 1e60, "
+        "-3e-45, 1e39, float32-max neighbours, ints 2**40+1, 2**53-1, 10**17+3; f32: 1e-15..1e9) placed on a scaling node or around the whole "
+        "expression, so that the dense reference stays finite and normal by construction; operator batch shapes broadcastable by "
         "construction, operand batch shapes likewise; f32/f64/c128; rectangular shapes. dag: straight-line programs of 1..3 (thorough 5) "
         "steps whose operands are drawn among the nodes built so far BY REFERENCE, their own .H views, a scalar multiple of the other "
         "operand, or new leaves (A+A.H, A-A.H, A.H-A, A@A, A.H@A, cA-A, X op f(X), ...); the dense reference is the same program on the "
-        "matrices; the shared operands are re-checked after the expression was built and used. reject: one deliberately invalid call per case. "
+        "matrices; the shared operands are re-checked after the expression was built and used; scaling nodes draw the same ordinary / extreme "
+        "factors, every node carries the interval of log10(product of factor magnitudes) and operands that would leave the budget "
+        "(f64/c128 [-260,250], f32 [-15,12]) are not offered. Excluded by construction (reported defect, counted by the label 'excluded='): "
+        "all-dense sub-expressions scaled by 0<|f|<0.5 (LinearOperator.m auto-detects Hermiticity with an absolute tolerance). reject: one deliberately invalid call per case. "
         "classes: RuleBasedStateMachine over define-class / instantiate / probe steps. Non-trivial = tree with >=1 composition and a "
         "non-trivial batch or rectangular shape (expr), a program in which a node reachable from the result fills >=2 operand slots (dag), "
         "or a history in which a subclass is instantiated after its parent (classes).")
 ASSUMPTIONS = [
-    "tolerance 200*eps*(|expr|(|leaves|) |x|) elementwise (abs-value evaluation of the same tree bounds the rounding)",
+    "tolerance 200*eps*(|expr|(|leaves|) |x|) elementwise (abs-value evaluation of the same tree bounds the rounding; eps of the OPERATOR's "
+    "dtype); scalar factors enter the bound as |f|, so the tolerance is relative to the scaled magnitude (1e-60*A is checked to 200 eps of "
+    "1e-60*|A|); a nan / inf entry of a result is a violation",
+    "f * A accepts every python int / float f (type check in __mul__); the matrix of f*A is f*matrix(A) evaluated in the operator's dtype "
+    "(torch tensor * python scalar), so float64/complex128 operators keep the full double precision and range of f",
+    "the dense reference is finite and outside the subnormal range by construction: entries and operands are N(0,1), sizes <= 4, at most one "
+    "extreme factor per tree / a magnitude budget per dag node; a non-finite abs-reference would be discarded (count stays 0)",
+    "wrapped dense matrices are auto-checked for Hermiticity with torch.allclose(atol=1e-8): all-dense sub-expressions keep the product of their "
+    "factors >= 1e-2 (|f| >= 0.5 per scaling) so that N(0,1) matrices are never Hermitian within that tolerance by scale alone",
     "user leaf classes implement their products with torch.matmul on the reference matrix (so they are correct by construction)",
     "dense leaves are random (never accidentally Hermitian within allclose tolerance) unless built Hermitian on purpose",
 ]
@@ -169,7 +187,8 @@ def close(got, ref, bound, eps, what):
     if tuple(got.shape) != tuple(ref.shape):
         return "%s: shape %s, expected %s" % (what, tuple(got.shape), tuple(ref.shape))
     tol = 200 * eps * bound + 1e-300
-    bad = (got - ref).abs() > tol
+    # "not within" rather than "outside": a nan / inf entry of the result fails (the reference is finite by construction)
+    bad = ~((got - ref).abs() <= tol)
     if bool(bad.any()):
         i = int(torch.nonzero(bad.reshape(-1))[0])
         return "%s: entry %d is %s, dense reference %s (tol %.2e)" % (
@@ -188,8 +207,11 @@ def run_expr(case):
     d = depth(tree)
     lv = leaves_of(tree, [])
     labels = ["depth=%d" % d, "dtype=" + case["dtype"]] + sorted({"leaf=" + l["kind"] for l in lv}) + \
-             ["batchrank=%d" % len(R.shape[:-2])]
+             ["batchrank=%d" % len(R.shape[:-2])] + sorted({"factor=" + factor_class(m["f"]) for m in mul_nodes(tree, [])}) + \
+             (["excluded=" + case["excluded"]] if case.get("excluded") else [])
     p, q = R.shape[-2:]
+    if not bool(torch.isfinite(Ra).all()):
+        return discard("dense reference not finite", labels)
     v = check_products(A, R, Ra, case, g, dtype, labels)
     if v is not None:
         return v
@@ -308,7 +330,10 @@ def run_dag(case):
     implicit_shared = any(prog[i]["op"] != "leaf" or prog[i]["kind"] not in ("dense", "herm_dense") for i in shared)
     labels = ["dag-nodes=%d" % sum(reach), "dtype=" + case["dtype"], "shared=%d" % min(len(shared), 3)] + sorted(pats) + \
         sorted({"leaf=" + ins["kind"] for i, ins in enumerate(prog) if reach[i] and ins["op"] == "leaf"}) + \
-        ["batchrank=%d" % len(R.shape[:-2])] + (["shared-implicit"] if implicit_shared else [])
+        ["batchrank=%d" % len(R.shape[:-2])] + (["shared-implicit"] if implicit_shared else []) + \
+        sorted({"factor=" + factor_class(ins["f"]) for i, ins in enumerate(prog) if reach[i] and ins["op"] == "mul"})
+    if not all(bool(torch.isfinite(v[2]).all()) for v in vals):
+        return discard("dense reference not finite", labels)
     v = check_products(A, R, Ra, case, g, dtype, labels)
     if v is not None:
         return v
@@ -541,6 +566,92 @@ def machine(holder):
 
 LEAF_KINDS = ["mv", "mv_rmv", "mv_mm", "all", "dense", "herm_user", "herm_dense", "jac"]
 
+# ---- scalar factors.  `f * A` accepts every python int / float; the matrix of the product is f * matrix(A) in the OPERATOR's
+# dtype, so a float64 / complex128 operator keeps all 53 bits of f and accepts every magnitude whose product is representable.
+# "ordinary" factors: |f| in [1/16, 16] (or 0): small ints, dyadic floats, decimal fractions that are not representable in single
+# precision, random doubles with a full mantissa.  "extreme" factors: magnitudes far outside [1/16, 16] (for float64/complex128
+# far outside the float32 range as well) and large ints.  The magnitude of the dense reference is kept inside the normal range
+# of the operator's dtype BY CONSTRUCTION: a tree carries at most one extreme factor, a dag keeps a per-node interval of
+# log10(product of factor magnitudes) inside MAGBUDGET (candidates that would leave it are not offered).
+FACTORS_PLAIN = [2, -1, 0.5, -3.25, 1, 3, -7, 16, 0.0625]
+FACTORS_DOUBLE = [0.1, -1.0 / 3.0, 1.7, -0.7, 3.141592653589793, -2.718281828459045, 0.3, 1.1, -12.6, 1.0000000000000002, 0.9999999999999999]
+EXTREME = {
+    # (fixed values, decimal exponent ranges for random mantissa * 10**e)
+    "f64": ([1e-60, 1e60, -3e-45, 1e39, 7e-46, 1e-38, -1e-260, 1e250, 3.4028235677973366e38, 2 ** 40 + 1, -(2 ** 53 - 1), 10 ** 17 + 3, 123456789],
+            [(-260, -39), (-38, -3), (3, 38), (39, 249)]),
+    "f32": ([1e-15, 1e9, -3e-12, 123456789, 16777217, -2.5e8, 1e-7, 33554433], [(-15, -3), (3, 8)]),
+}
+EXTREME["c128"] = EXTREME["f64"]
+# log10 interval in which the product of all factor magnitudes of a dag node is kept (matrix entries and operands are O(1))
+MAGBUDGET = {"f64": (-260.0, 250.0), "c128": (-260.0, 250.0), "f32": (-15.0, 12.0)}
+
+
+def factor_st(zero=False):
+    """ordinary factor: python int or float, |f| in [1/16, 16] (0 on request)"""
+    rnd = st.tuples(st.booleans(), st.floats(min_value=0.0625, max_value=16.0, allow_nan=False, allow_infinity=False)).map(
+        lambda t: -t[1] if t[0] else t[1])
+    return st.one_of(st.sampled_from(FACTORS_PLAIN), st.sampled_from(FACTORS_DOUBLE), rnd, *([st.sampled_from([0, 0.0, 1, -1])] if zero else []))
+
+
+@st.composite
+def extreme_factor_st(draw, dtype):
+    fixed, ranges = EXTREME[dtype]
+    if draw(st.booleans()):
+        return draw(st.sampled_from(fixed))
+    lo, hi = draw(st.sampled_from(ranges))
+    e = draw(st.integers(lo, hi))
+    m = draw(st.floats(min_value=1.0, max_value=9.999, allow_nan=False))
+    f = float("%re%d" % (m, e))      # correctly rounded decimal -> double
+    return -f if draw(st.booleans()) else f
+
+
+def log10abs(f):
+    import math
+    return math.log10(abs(f)) if f != 0 else 0.0
+
+
+def factor_class(f):
+    """label only: which kind of number the factor is"""
+    if f == 0:
+        return "zero"
+    mag = "" if 0.0625 <= abs(f) <= 16 else "-extreme"
+    if isinstance(f, int):
+        return ("int" if abs(f) < 2 ** 24 else "bigint") + mag
+    single = torch.tensor(f, dtype=torch.float64).to(torch.float32).to(torch.float64).item() == f
+    return ("float-single-exact" if single else "float-double-only") + mag
+
+
+def all_dense(tree):
+    """every leaf of the subtree is a wrapped dense matrix: xitorch then evaluates the subtree eagerly into ONE wrapped matrix
+    (LinearOperator.m(...) with the Hermiticity auto-detection at every .H / + / - / scalar* node)"""
+    return all(l["kind"] in ("dense", "herm_dense") for l in leaves_of(tree, []))
+
+
+# Formerly excluded region (defect D54, repaired in /repo 8bcc6d5; regress/C11/small_wrapped_matrix_autoflagged_hermitian.json): LinearOperator.m(mat) with
+# is_hermitian=None decides Hermiticity with torch.allclose's ABSOLUTE tolerance 1e-8, so every square wrapped matrix whose
+# entries are below ~1e-8 is flagged Hermitian and its rmv/rmm/.H silently apply the matrix instead of its adjoint.  Scalings
+# of all-dense sub-expressions therefore use |f| >= DENSE_MINFACTOR (or 0), which keeps the product of the factors of such a
+# sub-expression >= 0.5**6 at the depths generated.
+DENSE_MINFACTOR = 0.0      # D54 repaired in /repo (8bcc6d5): the exclusion is off (kept as a switch)
+
+
+def big_factor_st(zero=False):
+    """ordinary factor with |f| in [0.5, 16] (0 on request)"""
+    rnd = st.tuples(st.booleans(), st.floats(min_value=0.5, max_value=16.0, allow_nan=False, allow_infinity=False)).map(
+        lambda t: -t[1] if t[0] else t[1])
+    return st.one_of(st.sampled_from([f for f in FACTORS_PLAIN if abs(f) >= DENSE_MINFACTOR]),
+                     st.sampled_from([f for f in FACTORS_DOUBLE if abs(f) >= DENSE_MINFACTOR]), rnd,
+                     *([st.sampled_from([0, 0.0, 1, -1])] if zero else []))
+
+
+def mul_nodes(tree, out):
+    if tree["op"] == "mul":
+        out.append(tree)
+    for k in ("a", "b"):
+        if tree["op"] != "leaf" and k in tree:
+            mul_nodes(tree[k], out)
+    return out
+
 
 def _sub_batch(draw, batch):
     """a batch shape broadcastable to `batch`: drop leading dims, replace dims by 1"""
@@ -577,14 +688,16 @@ def tree_st(draw, p, q, depth, batch, dtype):
             return leaf
         op = draw(st.sampled_from(["matmul", "matmul", "add", "sub", "mul"]))
         if op == "mul":
-            return {"op": "mul", "f": draw(st.sampled_from([2, -1, 0.5, -3.25])), "side": draw(st.sampled_from(["l", "r"])), "a": hleaf()}
+            a = hleaf()
+            return {"op": "mul", "f": draw(big_factor_st() if all_dense(a) else factor_st()), "side": draw(st.sampled_from(["l", "r"])), "a": a}
         return {"op": op, "a": hleaf(), "b": hleaf()}
     op = draw(st.sampled_from(["H", "matmul", "add", "sub", "mul"]))
     if op == "H":
         return {"op": "H", "a": draw(tree_st(q, p, depth - 1, batch, dtype))}
     if op == "mul":
-        return {"op": "mul", "f": draw(st.sampled_from([2, -1, 0.5, -3.25, 0, 1])), "side": draw(st.sampled_from(["l", "r"])),
-                "a": draw(tree_st(p, q, depth - 1, batch, dtype))}
+        a = draw(tree_st(p, q, depth - 1, batch, dtype))
+        return {"op": "mul", "f": draw(big_factor_st(zero=True) if all_dense(a) else factor_st(zero=True)),
+                "side": draw(st.sampled_from(["l", "r"])), "a": a}
     if op == "matmul":
         k = draw(st.integers(1, 4))
         return {"op": "matmul", "a": draw(tree_st(p, k, depth - 1, batch, dtype)), "b": draw(tree_st(k, q, depth - 1, batch, dtype))}
@@ -598,13 +711,30 @@ def expr_st(draw, tier="quick"):
     p, q = draw(st.integers(1, 4)), draw(st.integers(1, 4))
     if draw(st.booleans()):
         q = p
-    d = draw(st.integers(0, 3 if tier == "quick" else 4))
+    maxd = 3 if tier == "quick" else 4
+    d = draw(st.integers(0, maxd))
     tree = draw(tree_st(p, q, d, batch, dtype))
+    # at most ONE factor of extreme magnitude per tree (all others are within [1/16, 16]): an existing scaling node gets it, or
+    # the whole expression is scaled when the depth allows
+    skipped = False
+    if draw(st.integers(0, 3)) == 0:
+        f = draw(extreme_factor_st(dtype))
+        # small factors only on sub-expressions that are not evaluated eagerly into one wrapped matrix (see DENSE_MINFACTOR)
+        muls = [m for m in mul_nodes(tree, []) if abs(f) >= DENSE_MINFACTOR or not all_dense(m["a"])]
+        if muls:
+            muls[draw(st.integers(0, len(muls) - 1))]["f"] = f
+        elif depth(tree) < maxd and (abs(f) >= DENSE_MINFACTOR or not all_dense(tree)):
+            tree = {"op": "mul", "f": f, "side": draw(st.sampled_from(["l", "r"])), "a": tree}
+        else:
+            skipped = abs(f) < DENSE_MINFACTOR
     # operand batch: broadcastable with the operator batch, possibly longer
     xb = _sub_batch(draw, batch)
     if draw(st.integers(0, 4)) == 0:
         xb = [draw(st.integers(1, 2))] + list(batch)
-    return {"tree": tree, "dtype": dtype, "xbatch": xb, "r": draw(st.integers(1, 3)), "seed": draw(st.integers(0, 2 ** 31 - 1))}
+    case = {"tree": tree, "dtype": dtype, "xbatch": xb, "r": draw(st.integers(1, 3)), "seed": draw(st.integers(0, 2 ** 31 - 1))}
+    if skipped:
+        case["excluded"] = "small-factor-on-wrapped-matrix"     # counted in the evidence (label), the tree is used unscaled
+    return case
 
 
 @st.composite
@@ -614,12 +744,33 @@ def dag_st(draw, tier="quick"):
     batch = draw(st.lists(st.integers(1, 3), max_size=2))
     p0 = draw(st.integers(1, 4))
     q0 = p0 if draw(st.integers(0, 3)) else draw(st.integers(1, 4))
-    prog, shapes = [], []
+    prog, shapes, mags, dn = [], [], [], []      # mags: interval of log10(product of factor magnitudes) of every node
+    LO, HI = MAGBUDGET[dtype]                    # dn: the node is ONE wrapped matrix (all-dense sub-expression, see DENSE_MINFACTOR)
+    DLO = -2.0                                   # ... whose factor product stays >= 1e-2
 
-    def emit(ins, shape):
+    def emit(ins, shape, mag=(0.0, 0.0), dense=False):
+        assert LO <= mag[0] <= mag[1] <= HI and (not dense or mag[1] >= DLO), (mag, ins)
         prog.append(ins)
         shapes.append(shape)
+        mags.append(mag)
+        dn.append(dense)
         return len(prog) - 1
+
+    def scaled(i, extreme_ok):
+        """a scaling node of node i whose magnitude interval stays inside the budget: an extreme factor where there is room
+        for it (one draw in four), else an ordinary one, else (no room at all) a factor of magnitude 1"""
+        lo, hi = mags[i]
+        ordinary = big_factor_st() if dn[i] else factor_st()
+
+        def fits(f):
+            return LO <= lo + log10abs(f) and hi + log10abs(f) <= HI and (not dn[i] or (abs(f) >= DENSE_MINFACTOR and hi + log10abs(f) >= DLO))
+        f = draw(extreme_factor_st(dtype)) if extreme_ok and draw(st.integers(0, 3)) == 0 else draw(ordinary)
+        if not fits(f):
+            f = draw(ordinary)
+            if not fits(f):
+                f = draw(st.sampled_from([1, -1, -1.0]))
+        L = log10abs(f)
+        return emit({"op": "mul", "a": i, "f": f, "side": draw(st.sampled_from(["l", "r"]))}, shapes[i], (lo + L, hi + L), dn[i])
 
     def new_leaf(p, q):
         kinds = ["mv", "mv_rmv", "mv_mm", "all", "mv", "mv_rmv", "dense", "jac"] + (["herm_user", "herm_dense"] if p == q else [])
@@ -633,13 +784,13 @@ def dag_st(draw, tier="quick"):
         leaf = {"op": "leaf", "kind": kind, "p": p, "q": q, "batch": b}
         if kind == "herm_dense":
             leaf["flag"] = draw(st.sampled_from([None, True]))
-        return emit(leaf, (p, q))
+        return emit(leaf, (p, q), dense=kind in ("dense", "herm_dense"))
 
-    def operand(ok_shape, newshape, scaled_of=None):
-        """an existing node whose shape satisfies ok_shape, the .H view of an existing node, a multiple of the other operand,
-        or (last choice) a new leaf"""
-        cands = [("n", i) for i, sh in enumerate(shapes) if ok_shape(sh)] + \
-                [("h", i) for i, sh in enumerate(shapes) if ok_shape((sh[1], sh[0]))] + \
+    def operand(ok_shape, newshape, scaled_of=None, ok_node=lambda i: True):
+        """an existing node whose shape satisfies ok_shape (and which satisfies ok_node: magnitude budget), the .H view of an
+        existing node, a multiple of the other operand, or (last choice) a new leaf"""
+        cands = [("n", i) for i, sh in enumerate(shapes) if ok_shape(sh) and ok_node(i)] + \
+                [("h", i) for i, sh in enumerate(shapes) if ok_shape((sh[1], sh[0])) and ok_node(i)] + \
                 ([("m", scaled_of)] if scaled_of is not None else [])
         k = draw(st.integers(0, len(cands)))
         if k == len(cands):
@@ -648,8 +799,8 @@ def dag_st(draw, tier="quick"):
         if how == "n":
             return i
         if how == "m":
-            return emit({"op": "mul", "a": i, "f": draw(st.sampled_from([2, -1, 0.5, 1])), "side": draw(st.sampled_from(["l", "r"]))}, shapes[i])
-        return emit({"op": "H", "a": i}, (shapes[i][1], shapes[i][0]))
+            return scaled(i, extreme_ok=False)
+        return emit({"op": "H", "a": i}, (shapes[i][1], shapes[i][0]), mags[i], dn[i])
 
     new_leaf(p0, q0)
     nsteps = draw(st.integers(1, 3 if tier == "quick" else 5))
@@ -658,16 +809,20 @@ def dag_st(draw, tier="quick"):
         # first operand: mostly a node that exists already (so that later nodes combine X with expressions containing X)
         a = draw(st.integers(0, len(prog) - 1)) if draw(st.integers(0, 2)) else operand(lambda sh: True, lambda: (p0, q0))
         pa, qa = shapes[a]
+        la, ha = mags[a]
         if op == "H":
-            emit({"op": "H", "a": a}, (qa, pa))
+            emit({"op": "H", "a": a}, (qa, pa), mags[a], dn[a])
         elif op == "mul":
-            emit({"op": "mul", "a": a, "f": draw(st.sampled_from([2, -1, 0.5, -3.25, 1])), "side": draw(st.sampled_from(["l", "r"]))}, (pa, qa))
+            scaled(a, extreme_ok=True)
         elif op == "matmul":
-            b = operand(lambda sh: sh[0] == qa, lambda: (qa, draw(st.integers(1, 4))))
-            emit({"op": "matmul", "a": a, "b": b}, (pa, shapes[b][1]))
+            # magnitudes multiply: only second operands that keep the product inside the budget are offered (a new leaf always does)
+            b = operand(lambda sh: sh[0] == qa, lambda: (qa, draw(st.integers(1, 4))),
+                        ok_node=lambda i: LO <= la + mags[i][0] and ha + mags[i][1] <= HI and
+                        (not (dn[a] and dn[i]) or ha + mags[i][1] >= DLO))
+            emit({"op": "matmul", "a": a, "b": b}, (pa, shapes[b][1]), (la + mags[b][0], ha + mags[b][1]), dn[a] and dn[b])
         else:
             b = operand(lambda sh: sh == (pa, qa), lambda: (pa, qa), scaled_of=a)
-            emit({"op": op, "a": a, "b": b}, (pa, qa))
+            emit({"op": op, "a": a, "b": b}, (pa, qa), (min(la, mags[b][0]), max(ha, mags[b][1])), dn[a] and dn[b])
     xb = _sub_batch(draw, batch)
     if draw(st.integers(0, 4)) == 0:
         xb = [draw(st.integers(1, 2))] + list(batch)
